@@ -11,8 +11,8 @@ from vt.monitors import C12Items
 FUNCTIONS = ["orquesta.conducting.WorkflowConductor._evaluate_task_actions (E1, concurrency unbounded)", "machines.TaskStateMachine item events, update_task_state, get_next_tasks (E2c)"]
 
 
-def items(ch, ctx, n, conc=None, conc_expr=False, sibling=False, steps=6, twin=False, **pol):
-    wf = defs.items_def(n, conc, conc_expr, sibling)
+def items(ch, ctx, n, conc=None, conc_expr=False, sibling=False, steps=6, twin=False, dups=False, **pol):
+    wf = defs.items_def(n, conc, conc_expr, sibling, dups)
     env = Env(ch, wf, "C12", monitors=[C12Items()], policy=Policy(steps=steps, **pol))
     env.counters = ctx["counters"]
     try:
@@ -60,6 +60,10 @@ def obligations(tier):
         o = ob("C12", "e2c.n%d.k%s%s" % (n, k, "x" if ex else ""), "vt.harness.C12:items", {"n": n, "conc": k, "conc_expr": ex, "steps": n + 2}, timeout=900)
         if n:
             o["antecedents"] = ["c12_item_offers", "c12_task_completed"]
+        obs.append(o)
+    for k in (None, 2):
+        o = ob("C12", "e2c.dups.n4.k%s" % k, "vt.harness.C12:items", {"n": 4, "conc": k, "steps": 6, "dups": True}, timeout=900)
+        o["antecedents"] = ["c12_item_offers", "c12_task_completed"]
         obs.append(o)
     for k in (None, 1, 2):
         o = ob("C12", "e2c.ctl.n3.k%s" % k, "vt.harness.C12:items", {"n": 3, "conc": k, "steps": 5, "control": "either"}, timeout=900)
